@@ -112,3 +112,22 @@ reg(Spec('C01', ['c01:C01'],
                       'senders run with the default outbound validation and normalisation (a sender with validation off may emit blocks the peer must refuse: C15)',
                       'applications are HTTP-semantically sane in calls the generator classes as valid (declared content-length equals body, no body on no-content responses, header lists within the peer MAX_HEADER_LIST_SIZE, header bytes decodable in the peer header_encoding)',
                       'windows and increments <= 2^20 in these profiles']))
+
+reg(Spec('C13', ['c13:C13'],
+         quick=[('HDR', 2500), ('DUPLEX', 1000)],
+         thorough=[('HDR', 60000), ('DUPLEX', 20000), ('RACE', 10000)],
+         overrides={'*': {'matrix_outbound': True, 'small_closed': 0.0, 'small_backlog': False, 'misuse': 0.3}},
+         rule=R_RUN + 'non-trivial = a header-carrying call raised and a later one on the same endpoint succeeded' + R_DISTINCT))
+reg(Spec('C14', ['c14:C14'],
+         quick=[('HDR', 3000), ('DUPLEX', 500)],
+         thorough=[('HDR', 80000), ('DUPLEX', 10000)],
+         overrides={'*': {'misuse': 0.3}},
+         rule=R_RUN + 'non-trivial = a header list that needed repair, or a sensitive field, was emitted' + R_DISTINCT))
+
+reg(Spec('C06', ['c06:C06'],
+         quick=[('ADV', 3000), ('DUPLEX', 1000), ('RACE', 1000), ('MISUSE', 800)],
+         thorough=[('ADV', 80000), ('DUPLEX', 20000), ('RACE', 20000), ('MISUSE', 20000), ('UPGRADE', 5000)],
+         rule=R_RUN + 'non-trivial = at least one (role x stream-state x frame-or-call) cell of the RFC reference table was judged; '
+              'the probes list every distinct cell reached' + R_DISTINCT,
+         assumptions=['sampled histories with measured coverage of the reference table, not exhaustive enumeration to a depth bound',
+                      'only single-frame receive steps are judged (attribution is exact there); bursts are covered by C21 equivalence']))
